@@ -59,7 +59,12 @@ func main() {
 		cfgs = append(cfgs, struct{ p, b bool }{true, true})
 	}
 	for _, hook := range hooks {
-		for _, op := range []string{"close", "cancel0", "publish", "subscribe"} {
+		ops := []string{"close", "cancel0", "publish", "subscribe"}
+		switch hook {
+		case "gochannel.sub.close.before_lock", "gochannel.sub.close.locked", "gochannel.unsubscribe.before_remove", "gochannel.close.signalled":
+			ops = append(ops, "close2") // reached only once a Close (or a cancel) is under way: overlap it with a second Close
+		}
+		for _, op := range ops {
 			for ci, cfg := range cfgs {
 				dec := 0
 				if hook == "decorator.sub.before_out" {
